@@ -69,7 +69,7 @@ DBNAME = "pages.db"
 BAKNAME = "pages_backup.db"
 BOOT_TITLE = "Module:_sandbox_phase1"
 NPAGES = 3
-COALESCE = {"unlink", "script", "read"}
+COALESCE = {"unlink", "script", "read", "exists"}
 CLS_OF_LABEL = {
     "exists": "exists", "unlink": "unlink", "rename": "rename", "connect": "connect", "script": "script",
     "cursor": "cursor", "read1": "read", "bootcheck": "bootcheck", "insert": "write", "commit": "commit", "read2": "read",
@@ -368,11 +368,11 @@ def install_wrappers(dbdir: str, sync) -> None:
             return "main"
         if n == BAKNAME:
             return "bak"
-        if n.endswith("-wal"):
+        if n == DBNAME + "-wal":       # the side files of the DATABASE path (not those of any other name)
             return "wal"
-        if n.endswith("-shm"):
+        if n == DBNAME + "-shm":
             return "shm"
-        return "other"
+        return "other:" + n[-12:] if n.endswith(("-wal", "-shm")) else "other"
 
     def stat(path, *a, **k):
         # looking at the backup file = the "exists" check of the restore
@@ -1601,8 +1601,8 @@ def run(tier: str) -> int:
     provcfg = "Gen_Workers_prov.cfg" if thorough else "Gen_Workers_provq.cfg"
     rescfg = "Gen_Workers_restore_all.cfg" if thorough else "Gen_Workers_restore.cfg"
     jobs = {"gen": TlcJob([{"name": provcfg[:-4], "module": "Gen_Workers", "cfg": provcfg, "workers": 1},
-                           {"name": "Gen_Workers_boot3", "module": "Gen_Workers", "cfg": "Gen_Workers_boot3.cfg", "workers": 1},
-                           {"name": "Gen_Workers_restore", "module": "Gen_Workers", "cfg": rescfg, "workers": 1}])}
+                           {"name": "Gen_Workers_boot3", "module": "Gen_Workers", "cfg": "Gen_Workers_boot3.cfg", "workers": 1}]),
+            "gen2": TlcJob([{"name": "Gen_Workers_restore", "module": "Gen_Workers", "cfg": rescfg, "workers": 1}])}
     try:
         return _run(o, thorough, rng, gens, side, provcfg, jobs)
     finally:
@@ -1650,7 +1650,7 @@ def _run(o, thorough, rng, gens, side, provcfg, jobs):
     # S: a restore while another live process has the database open (the creating context that wrote the backup; workers that
     # were open when it wrote it): who is attached to the replaced database x lifetimes x later openers
     rescfg = "Gen_Workers_restore_all.cfg" if thorough else "Gen_Workers_restore.cfg"
-    r = gres["Gen_Workers_restore"]
+    r = jobs.pop("gen2").results()["Gen_Workers_restore"]
     if not r.ok:
         raise common.TLCError("TLC did not complete cleanly on Gen_Workers/" + rescfg + "\n" + r.out[-1500:])
     o.add_tlc("Gen_Workers_restore", r)
